@@ -7,10 +7,11 @@ TRUSTED_BASE = [
     "no axioms declared in the development (grep + Print Assumptions audited on every run)",
     "tools/gen_from_src.py: extraction of constants / table / struct schemas from /repo sources into Gen/*.v (a site that can no longer be read keeps its reference value and breaks the obligations that depend on it)",
     "tools/gen_leaves.py (T3): unverified translator of a small Rust subset (straight-line integer functions) into Gallina, Gen/Leaves*.v; the regenerated leaves are proved equal to the hand model (Proofs/Leaves*Ok.v)",
+    "tools/gen_fns.py (T5): unverified statement-level translator (loops, searches, checked wrappers, Option/?/Vec locals, struct fields as parameters, monomorphised generics, symbolic element width) of the query algorithms into Gallina, Gen/Fns*.v; the regenerated functions are proved equal to / simulated by the hand model and composed end to end (Proofs/Fns*Ok.v; C01, C02, C05, C06)",
     "Coq extraction (ExtrOcamlBasic only; no Extract Constant / Extract Inductive of our own) + OCaml 4.13.1 + ocaml/driver.ml (parsing/printing)",
     "Rust harness (/verif/harness), native spec oracle, Python orchestration and generators: decide nothing universal",
     "rustc integer / slice / Vec semantics as modelled in Base/Outcome.v; serde+bincode; minimum_redundancy (external crates, not modelled)",
-    "hand-written model of /repo/src (theories/Model/*.v): tied to the code by the correspondence run, not verified directly",
+    "hand-written model of /repo/src (theories/Model/*.v): tied to the code by the correspondence run, not verified directly (constructors, code assignment, DArray, iterators, serialization, space accounting; the query paths of T5 are also regenerated)",
 ]
 AXIOM_PROPS = {"C15"}   # properties whose theorems may use the Reals axioms of the standard library
 
@@ -59,6 +60,8 @@ def gen_c13(rng, tier):
                 if cpos > prev or rng.random() < 0.1:
                     toks.append(("p" if (cpos - prev <= 3 and rng.random() < 0.6) or rng.random() < 0.15 else "e") + str(cpos - prev))
                     prev = cpos
+            if toks and rng.random() < 0.4:
+                toks[0] = "c" + toks[0][1:]          # the builder starts as collect::<QVectorBuilder>() of the first chunk
             path = "hist:" + ",".join(toks)
         c = Case("c13-%d" % k, tags=dict(elem=elem, n=n, style=style, path=path.split(":")[0], trivial=(n == 0), cost=n * 3))
         c.add(C.new_line("qv", elem, path, vals))
@@ -117,6 +120,12 @@ def rsq_case(rng, cid, kind, n, tier, path=None, sweep=True):
         c.add("Q rank %d %d" % (sym, MAXU))
         c.add("Q select %d %d" % (sym, MAXU))
     c.add("Q get %d" % MAXU)
+    wa = C.wrap_args(rng, n)
+    for a in rng.sample(wa, min(len(wa), 6)):
+        c.add("Q get %d" % a)
+        sym = rng.randrange(4)
+        c.add("Q rank %d %d" % (sym, a))
+        c.add("Q select %d %d" % (sym, a))
     return c
 
 
@@ -462,6 +471,10 @@ def bin_queries(c, rng, bits, kind, sweep=True):
             c.add("Q select0 %d" % rng.choice([0, n - ones, max(n - ones - 1, 0), rng.randrange(n - ones + 1)]))
     for q in ["rank1", "rank0", "select1", "select0", "get"]:
         c.add("Q %s %d" % (q, MAXU))
+    wa = C.wrap_args(rng, n)
+    for a in rng.sample(wa, min(len(wa), 6)):
+        for q in ["rank1", "rank0", "select1", "select0", "get"]:
+            c.add("Q %s %d" % (q, a))
 
 
 def gen_c06(rng, tier):
@@ -550,6 +563,10 @@ def gen_c07(rng, tier):
             else:
                 c.add("Q select0 0")
             c.add("Q select1 %d" % MAXU)
+            wa = C.wrap_args(rng, n)
+            for a in rng.sample(wa, min(len(wa), 5)):
+                c.add("Q select1 %d" % a)
+                c.add("Q get %d" % a)
             if n <= 200000:
                 c.add("Q ones")
                 c.add("Q zeroswp %d" % rng.randrange(n + 2))
@@ -731,6 +748,14 @@ def gen_c09(rng, tier):
                         c.add("Q rankpall %d" % sym)
                         c.add("Q rankall %d" % sym)
                         c.add("Q rankp %d %d" % (sym, MAXU))
+                # the same on a copy obtained by serialization round trip / clone (a tree that was loaded, not built)
+                if n <= 7000:
+                    c.add(rng.choice(["RT", "CLONE"]))
+                    for sym in pick[:3]:
+                        if sym < 2 ** WIDTH[elem]:
+                            for i in sorted(set([0, n, n // 2, rng.randrange(n + 1)])):
+                                c.add("Q rankp %d %d" % (sym, i))
+                                c.add("Q rank %d %d" % (sym, i))
                 c.model = n <= 6145
                 c.tags["cost"] = n * 40
                 out.append(c)
@@ -1059,15 +1084,25 @@ def gen_c12(rng, tier):
                 for _ in range(3):
                     c.add("ITER %s %s" % (src, hist("nbl", rng.choice([5, n + 4, 2 * n + 6]))))
                 c.add("ITER %s %s" % (src, "l" + hist("nb", n + 2) + "lnblnbl"))
+                # adapters and hints: nth (k, j, K = usize::MAX), nth_back (r, q, R), size_hint (h), also past the ends
+                c.add("ITER %s %s" % (src, hist("nbkrhl", rng.choice([6, n + 4])) + "hl" + rng.choice(["K", "R", "jq"]) + "hlnbhl"))
+                c.add("ITER %s %s" % (src, rng.choice(["n", "b", ""]) + rng.choice(["K", "R"]) + "hlnbhl"))
+                c.add("ITER %s %s" % (src, hist("jq", max(1, n // 8 + 2)) + "hlkrhl"))
         elif fam in ("qv", "rsq"):
             for src in ["iter", "into"]:
                 c.add("ITER %s %s" % (src, "n" * (n + 4)))
+                c.add("ITER %s %s" % (src, hist("nkh", rng.choice([5, n + 3])) + "hnhnh" + "Khnh"))
+                c.add("ITER %s %s" % (src, "n" * n + "hnhnhkh"))
         elif fam in ("bv", "bvm"):
             for src in ["iter", "into"]:
                 c.add("ITER %s %s" % (src, hist("nl", n + 5) + "nnll"))
                 c.add("ITER %s %s" % (src, "n" * (n + 2) + "lnlnl"))
+                c.add("ITER %s %s" % (src, hist("nkhl", rng.choice([6, n + 4])) + "hl" + rng.choice(["K", "j", "k"]) + "hlnhl"))
+                c.add("ITER %s %s" % (src, rng.choice(["n", ""]) + "Khlnhl"))
+                c.add("ITER %s %s" % (src, hist("j", max(1, n // 8 + 2)) + "hlkhl"))
             for src in ["ones", "zeros"]:
                 c.add("ITER %s %s" % (src, "n" * min(n + 3, 400)))
+                c.add("ITER %s %s" % (src, hist("nkh", 8) + "jhKhnh"))
             for p in [0, n, n + 1, rng.randrange(n + 1), n + 1000]:
                 c.add("ITER oneswp %s %d" % ("n" * 12, p))
                 c.add("ITER zeroswp %s %d" % ("n" * 12, p))
@@ -1621,7 +1656,25 @@ def gen_c16(rng, tier):
         c.lines = [l for l in c.lines if l.startswith("NEW") or l == "Q codes"] + ["SPACE"]
         c.model = c.tags.get("n", 0) <= 5000
         out.append(c)
-    return out + gen_c16_sparse(rng) + gen_c16_grown(rng, tier)
+    return out + gen_c16_sparse(rng) + gen_c16_grown(rng, tier) + gen_c16_agg(rng, tier)
+
+
+def gen_c16_agg(rng, tier):
+    """a boxed slice of structures of DIFFERENT sizes built by the user (the generic SpaceUsage impls of the crate
+    report on it): small element first, large element first, many elements"""
+    out = []
+    k = 0
+    for elem in ["bv", "rsw", "rsn", "qv", "rsq256"]:
+        for sizes_ in ([100, 50000, 7], [50000, 100, 7], [0, 3000], [rng.randrange(1, 9000) for _ in range(rng.randrange(2, 9))]):
+            c = Case("c16-agg%d" % k, tags=dict(kind="aggbox", elem=elem, n=sum(sizes_), mix="boxed slice of %d structures" % len(sizes_), cost=sum(sizes_)))
+            k += 1
+            c.fam = "agg"
+            c.seq = []
+            c.add("NEW aggbox %s new %d %s" % (elem, len(sizes_), " ".join(map(str, sizes_))))
+            c.add("SPACE")
+            c.model = False
+            out.append(c)
+    return out
 
 
 def gen_c16_grown(rng, tier):
